@@ -33,7 +33,7 @@ Property theorems only; helper lemmas and the specification vocabulary live in
 The last part is about `Ccp.Model.EditForms.stepX`: the other forms in which the editing calls take
 their arguments (a `BaseCfgLine` for a text, a foreign line object as pattern), the rejections of
 values that are neither, `ConfigList.remove`, a second `delete()` through a stale handle,
-`factory=True` (`stepF`), and `classify_family_indent` called directly.
+`factory=True` (`stepF`: no difference), and `classify_family_indent` called directly.
 
 All other theorems are about `Ccp.Model.Edit.step`, for all states and payloads.  A state holds
 a list of items (text + identity: the committed line number of the object, `none` for a
@@ -1643,25 +1643,57 @@ theorem deleteTwice_spec (s : S) (i : Nat) (hd : s.dirty = false) (hinv : FreshI
     · intro h; simp [h]
     · intro h; simp [h]
 
-/-- **Under `factory=True`** (`stepF true`) `ConfigList.insert` — with a `str` or a line object — is
-refused with `InvalidParameters` and changes nothing (known finding F10e: the new line is built
-without `all_lines`), after the index check and before the value check; `append_to_family`, which
-inserts through it, never changes the list either; every other call is what it is without the
-factory.  `stepF false` is `stepX`. -/
-theorem factory_insert_refused (s : S) (k : Int) (t : Str) (i : Nat) (ind : Int) (ai : Bool) (v : Arg) (op : OpX) :
-    stepF false s op = stepX s op ∧
-    stepF true s (.base (.insert k t)) = (s, .error (.base .invalidParameters)) ∧
-    stepF true s (.insertA (some k) (.str t)) = (s, .error (.base .invalidParameters)) ∧
-    stepF true s (.insertA (some k) (.line t)) = (s, .error (.base .invalidParameters)) ∧
+/-- **The typed-model factory changes no editing call** (`stepF f` for a configuration parsed with `factory=f`): every
+operation -- in every input form -- has the outcome and the effect it has without the factory, and so has every
+history; everything proved about `step` / `stepX` above holds under `factory=True`.
+(Before the repair `fix: ConfigList.insert() passes all_lines to config_line_factory() under factory=True` this was
+`factory_insert_refused`: under the factory `ConfigList.insert` was refused with `InvalidParameters`, after the index
+check and before the value check, and `append_to_family`, which inserts through it, never changed the list -- finding
+F10e.) -/
+theorem factory_neutral (f : Bool) (s : S) (op : OpX) (ops : List OpX) :
+    stepF f s op = stepX s op ∧ runX f s ops = runX false s ops := by
+  refine ⟨rfl, ?_⟩
+  induction ops generalizing s with
+  | nil => rfl
+  | cons o os ih => simp only [runX, stepF]; exact ih _
+
+/-- **`ConfigList.insert` under `factory=True`** -- with a `str` or a line object -- always succeeds and is exactly
+`list.insert`: one line added at the normalised position, everything else unchanged and in order (`insert_spec`,
+`insertion_frame`); an index that is not an `int` is still a `ValueError`, a value that is no text a `TypeError`. -/
+theorem factory_insert_spec (s : S) (k : Int) (t : Str) (v : Arg) (hnf : NoFilter s) :
+    (stepF true s (.base (.insert k t))).2 = .ok () ∧
+    (stepF true s (.insertA (some k) (.str t))).2 = .ok () ∧
+    (stepF true s (.insertA (some k) (.line t))).2 = .ok () ∧
+    (stepF true s (.base (.insert k t))).1.texts
+      = s.texts.take (insertPos s.texts.length k) ++ t :: s.texts.drop (insertPos s.texts.length k) ∧
+    (stepF true s (.insertA (some k) (.str t))).1 = (stepF true s (.base (.insert k t))).1 ∧
+    (stepF true s (.insertA (some k) (.line t))).1 = (stepF true s (.base (.insert k t))).1 ∧
     stepF true s (.insertA none v) = (s, .error (.base .valueError)) ∧
-    stepF true s (.insertA (some k) .other) = (s, .error .typeError) ∧
-    (stepF true s (.base (.appendToFamily i t ind ai))).1 = s ∧
-    (stepF true s (.appendToFamilyL i t ind ai)).1 = s ∧
-    (stepF true s (.base (.appendToFamily i t ind ai))).2 ≠ .ok () := by
-  refine ⟨rfl, rfl, rfl, rfl, rfl, rfl, ?_, ?_, ?_⟩
-  · simp only [stepF, Bool.not_true, Bool.false_eq_true, if_false]; split <;> rfl
-  · simp only [stepF, Bool.not_true, Bool.false_eq_true, if_false]; split <;> rfl
-  · simp only [stepF, Bool.not_true, Bool.false_eq_true, if_false]; split <;> simp
+    stepF true s (.insertA (some k) .other) = (s, .error .typeError) :=
+  ⟨rfl, rfl, rfl, (insert_spec s k t hnf).2, rfl, rfl, rfl, rfl⟩
+
+/-- **`append_to_family` under `factory=True`** (payload a `str` or a line object) is the operation of
+`appendToFamily_spec`: whenever it succeeds exactly one line -- the payload after the explicit / auto indentation --
+is inserted at the index `appendIndex` computes, all other lines keep text and order; a refused call changes nothing. -/
+theorem factory_appendToFamily_spec (s : S) (i : Nat) (txt : Str) (ind : Int) (ai : Bool) (hnf : NoFilter s) :
+    stepF true s (.base (.appendToFamily i txt ind ai)) = liftR (step s (.appendToFamily i txt ind ai)) ∧
+    stepF true s (.appendToFamilyL i txt ind ai) = liftR (step s (.appendToFamily i txt ind ai)) ∧
+    ((stepF true s (.base (.appendToFamily i txt ind ai))).2 = .ok () →
+      let txt' := familyText (indentOf s.tree i) s.width txt ind ai
+      ∃ idx, appendIndex s.tree s.width i txt' = .ok idx ∧
+        (stepF true s (.base (.appendToFamily i txt ind ai))).1.texts
+          = s.texts.take (min idx s.texts.length) ++ txt' :: s.texts.drop (min idx s.texts.length)) ∧
+    (∀ e, (stepF true s (.base (.appendToFamily i txt ind ai))).2 = .error e →
+      (stepF true s (.base (.appendToFamily i txt ind ai))).1 = s) := by
+  refine ⟨rfl, rfl, fun hok => ?_, fun e he => ?_⟩
+  · have hok' : (step s (.appendToFamily i txt ind ai)).2 = .ok () := by
+      have : (liftR (step s (.appendToFamily i txt ind ai))).2 = .ok () := hok
+      revert this; simp only [liftR]; split <;> simp_all
+    obtain ⟨_, _, _, idx, h4, h5, _⟩ := appendToFamily_spec s i txt ind ai hnf hok'
+    exact ⟨idx, h4, h5⟩
+  · rcases errorsX_leave_state s (.base (.appendToFamily i txt ind ai)) e he with h | ⟨j, hj, _⟩
+    · exact h
+    · cases hj
 
 /-- **`classify_family_indent(arg)` called directly** on a line of indent `si`, indent width `w`:
 only a `str` is accepted (a line object too is `InvalidParameters`); a text whose indent is no
@@ -1733,6 +1765,19 @@ example :
     (stepX (init exCfg false 1 ["a".toList, "a".toList]) (.deleteTwice 0)).1.texts = ["a".toList] :=
   ⟨by decide, rfl, rfl, by decide, rfl, rfl, by decide⟩
 example : FreshInv exOn ∧ exOn.dirty = false := ⟨init_fresh _ _ _ _, rfl⟩
+/-- `factory_insert_spec` / `factory_appendToFamily_spec` on the example config (`NoFilter exOn` holds, see above):
+under `factory=True` `insert(1, "x")` and a child appended to line 0 do what they do without the factory (before the
+repair of F10e both were refused with `InvalidParameters` and the list stayed as it was) -/
+example : (stepF true exOn (.base (.insert 1 "x".toList))).2 = .ok () ∧
+    (stepF true exOn (.base (.insert 1 "x".toList))).1.texts
+      = ["interface Eth1".toList, "x".toList, " ip address 1.1.1.1".toList, "  secondary".toList,
+         " shutdown".toList, "interface Eth10".toList] ∧
+    (stepF true exOn (.base (.appendToFamily 0 " mtu 9".toList (-1) false))).2 = .ok () ∧
+    (stepF true exOn (.appendToFamilyL 0 " mtu 9".toList (-1) false)).1.texts
+      = ["interface Eth1".toList, " ip address 1.1.1.1".toList, "  secondary".toList, " shutdown".toList,
+         " mtu 9".toList, "interface Eth10".toList] ∧
+    stepF true exOn (.base (.appendToFamily 0 " mtu 9".toList 1 true)) = (exOn, .error (.base .notImplemented)) :=
+  ⟨rfl, by decide, rfl, by decide, rfl⟩
 /-- `classify_direct`: from a line of indent 1, width 1: three levels deeper, one level shallower;
 width 2: an odd indent is refused, 4 against 2 is one level -/
 example : cfiArg 1 1 (.str "    x".toList) = .ok 3 ∧ cfiArg 1 1 (.str "x".toList) = .ok (-1) ∧
